@@ -31,7 +31,7 @@ func init() {
 	})
 	register(&Property{
 		ID: "C13",
-		Explanation: "Decides: (create-then-remove) in lockHandle.refresh and refreshStaleLock the old lock file is removed (adoptReplacementLock) only behind the success edge of createReplacementLock, the lock adopted is the one just created, and success is returned only through adoptReplacementLock; refreshStaleLock creates a replacement only if the own lock file still exists and adopts it only if a second existence check — after creating it — succeeded and still found the file; adoptReplacementLock switches l.lockID first and removes the id read before the switch, so there is no moment without a lock file; (cancel-before-unlock) the deferred clean-up of refreshLocks cancels the holder's context before it removes the lock file, both refresh goroutines register their clean-up before any exit, refreshLocks refreshes only inside the refreshability window, and a failed stale refresh calls cancel() (true is returned only on success); (lock-timing) with the initialisers evaluated, 0 < refreshInterval < refreshabilityTimeout < staleLockTimeout and refreshabilityTimeout + refreshInterval <= staleLockTimeout, and staleLockTimeout is reassigned only by a testing hook; (refresh-rendezvous) refreshLocks and monitorLockRefresh, started together with channels made for this pair, cannot block each other for ever: for every pair of blocking channel operations (one per goroutine) whose only other way out is the cancellation of the lock context, some shared channel is sent on by one and received from by the other — the genuine defect found here (a regular refresh finishing after the monitor had requested a forced refresh left both blocked in their sends, so the lock was neither refreshed nor monitored and the context never cancelled) is fixed; (monitor-own-clock) the expiry monitor can stop the holder without the cooperation of the refresh goroutine: every blocking channel operation of monitorLockRefresh has a clock case and from each clock case a return (whose clean-up cancels the holder's context) is reachable without another rendezvous — on the pinned tree both fail (a refresh that hangs in the backend is never given up; demonstrated), which is recorded as a KNOWN-FINDING because the repair needs a new give-up policy and timing parameter; (last-refresh-on-success) the time refreshLocks measures its blind-refresh window from is read once before the loop and afterwards only behind the success edge of lock.refresh or tryRefreshStaleLock (lock.Time itself also advances on failed attempts; added after a seeded change). (plain-refresh-not-cancellable) lockHandle.refresh, which has no clean-up for its replacement file when the upload reports an error, is only ever called with context.TODO()/Background(): a cancelled upload can have reached the repository, and the replacement would stay behind as a fresh lock of a finished process (added after a seeded change that passed the locker's context). Not decided: the request/result hand-over on the per-request result channel; real timing (scheduler stalls, suspend/resume).",
+		Explanation: "Decides: (create-then-remove) in lockHandle.refresh and refreshStaleLock the old lock file is removed (adoptReplacementLock) only behind the success edge of createReplacementLock, the lock adopted is the one just created, and success is returned only through adoptReplacementLock; refreshStaleLock creates a replacement only if the own lock file still exists and adopts it only if a second existence check — after creating it — succeeded and still found the file; adoptReplacementLock switches l.lockID first and removes the id read before the switch, so there is no moment without a lock file; (cancel-before-unlock) the deferred clean-up of refreshLocks cancels the holder's context before it removes the lock file, both refresh goroutines register their clean-up before any exit, refreshLocks refreshes only inside the refreshability window, and a failed stale refresh calls cancel() (true is returned only on success); (lock-timing) with the initialisers evaluated, 0 < refreshInterval < refreshabilityTimeout < staleLockTimeout and refreshabilityTimeout + refreshInterval <= staleLockTimeout, and staleLockTimeout is reassigned only by a testing hook; (refresh-rendezvous) refreshLocks and monitorLockRefresh, started together with channels made for this pair, cannot block each other for ever: for every pair of blocking channel operations (one per goroutine) whose only other way out is the cancellation of the lock context, some shared channel is sent on by one and received from by the other — the genuine defect found here (a regular refresh finishing after the monitor had requested a forced refresh left both blocked in their sends, so the lock was neither refreshed nor monitored and the context never cancelled) is fixed; (monitor-own-clock) the expiry monitor can stop the holder without the cooperation of the refresh goroutine: every blocking channel operation of monitorLockRefresh has a clock case and from each clock case a return (whose clean-up cancels the holder's context) is reachable without another rendezvous — on the pinned tree both fail (a refresh that hangs in the backend is never given up; demonstrated), which is recorded as a KNOWN-FINDING because the repair needs a new give-up policy and timing parameter; (last-refresh-on-success) the time refreshLocks measures its blind-refresh window from is read once before the loop and afterwards only behind the success edge of lock.refresh or tryRefreshStaleLock (lock.Time itself also advances on failed attempts; added after a seeded change). (plain-refresh-not-cancellable) lockHandle.refresh, which has no clean-up for its replacement file when the upload reports an error, is only ever called with context.TODO()/Background(): a cancelled upload can have reached the repository, and the replacement would stay behind as a fresh lock of a finished process (added after a seeded change that passed the locker's context); refreshStaleLock, which does run under the locker's context, uploads its replacement with the delayed-cancel context, so that an Unlock in the middle of a forced refresh still lets the replacement be adopted or cleaned up (genuine defect, demonstrated, fixed: the replacement stayed in the repository). Not decided: the request/result hand-over on the per-request result channel; real timing (scheduler stalls, suspend/resume).",
 		Assumptions: commonAssumptions,
 		Technique:   "static analysis: CFG edge cuts + value origin of the removed lock id + evaluation of timing constants (go/ssa, go/constant)",
 		Run: func(c *eng.Ctx) {
@@ -44,6 +44,8 @@ func init() {
 			ruleLastRefreshOnSuccess(c)
 		},
 		Controls: []Control{
+			{Name: "forced-refresh-uploads-with-the-lockers-context", File: "internal/repository/lock_file.go",
+				Old: "	ctx, cancel := delayedCancelContext(ctx, unlockCancelDelay)\n	defer cancel()\n\n	id, err := l.createReplacementLock(ctx)\n	if err != nil {\n		return err\n	}\n\n	time.Sleep(waitBeforeLockCheck)\n\n	exists, err = l.checkExistence(ctx)\n", New: "	id, err := l.createReplacementLock(ctx)\n	if err != nil {\n		return err\n	}\n\n	time.Sleep(waitBeforeLockCheck)\n\n	exists, err = l.checkExistence(ctx)\n\n	ctx, cancel := delayedCancelContext(ctx, unlockCancelDelay)\n	defer cancel()\n", Rule: "plain-refresh-not-cancellable"},
 			{Name: "regular-refresh-with-the-lockers-context", File: "internal/repository/lock.go",
 				Old: "			err := lock.refresh(context.TODO())", New: "			err := lock.refresh(ctx)", Rule: "plain-refresh-not-cancellable"},
 			{Name: "window-restarts-after-failed-refresh", File: "internal/repository/lock.go",
